@@ -11,6 +11,7 @@ import (
 	"github.com/gr33nbl00d/caddy-revocation-validator/ocsp"
 	"github.com/gr33nbl00d/caddy-revocation-validator/zz_verif/verifrt"
 	"go.uber.org/zap"
+	xocsp "golang.org/x/crypto/ocsp"
 )
 
 const modRoot = "github.com/gr33nbl00d/caddy-revocation-validator"
@@ -22,19 +23,28 @@ var (
 	crlProvisioned          int
 )
 
+// withAnswer: a 'not revoked' / 'revoked' verdict may or may not carry the responder's answer
+// (an authentic OCSP "good" does, "no responder known" does not)
+var withAnswer bool
+
 func outcome(o int) (*core.RevocationStatus, error) {
+	var resp *xocsp.Response
+	if withAnswer {
+		resp = &xocsp.Response{}
+	}
 	switch o {
 	case 1:
-		return &core.RevocationStatus{Revoked: true}, nil
+		return &core.RevocationStatus{Revoked: true, OcspResponse: resp}, nil
 	case 2:
 		return nil, verifrt.NewError("mechanism failure")
 	}
-	return &core.RevocationStatus{}, nil
+	return &core.RevocationStatus{OcspResponse: resp}, nil
 }
 
 func installMechanisms() {
 	ocspCalls, crlCalls, crlProvisioned = 0, 0, 0
 	ocspOutcome, crlOutcome = verifrt.Choose(3), verifrt.Choose(3)
+	withAnswer = verifrt.Choose(2) == 1
 	verifrt.Override("(*"+modRoot+"/ocsp.OCSPRevocationChecker).IsRevoked", func(c *ocsp.OCSPRevocationChecker, cert *x509.Certificate, chains [][]*x509.Certificate) (*core.RevocationStatus, error) {
 		ocspCalls++
 		return outcome(ocspOutcome)
